@@ -414,6 +414,16 @@ func genC12(r *Rng, tier string) []Case {
 		}
 		dec([]string{"text", "uint"}, append(append(headBytes(0x60, w, uint64(len(s))), s...), 0x05))
 	}
+	// one invalid byte at EVERY offset of an otherwise ASCII string (word-at-a-time validators look at 8 bytes at once)
+	for _, n := range []int{7, 8, 9, 15, 16, 17, 23, 24, 31, 32, 33, 40, 64, 65} {
+		for pos := 0; pos < n; pos++ {
+			for _, bad := range []byte{0xff, 0x80, 0xc3} {
+				str := asciiBytes(r, n)
+				str[pos] = bad
+				dec([]string{"text", "uint"}, append(append(canonHead(0x60, uint64(n)), str...), 0x05))
+			}
+		}
+	}
 	// text items around every UTF-8 encoding boundary, incl. U+FFFD itself
 	for _, cp := range []rune{0x7f, 0x80, 0x7ff, 0x800, 0xd7ff, 0xe000, 0xfffc, 0xfffd, 0xfffe, 0xffff, 0x10000, 0x10ffff} {
 		for _, s := range []string{string(cp), "caf" + string(cp), string(cp) + string(cp) + "z"} {
